@@ -30,8 +30,23 @@ func effB(b int) int {
 	return b
 }
 
-// SizeSet returns S(B).
+var sizeSetCache = map[[2]int][]int{}
+
+// SizeSet returns S(B) (cached: it is asked for in every execution).
 func SizeSet(b int, big bool) []int {
+	ck := [2]int{b, 0}
+	if big {
+		ck[1] = 1
+	}
+	if r, ok := sizeSetCache[ck]; ok {
+		return r
+	}
+	r := sizeSet(b, big)
+	sizeSetCache[ck] = r
+	return r
+}
+
+func sizeSet(b int, big bool) []int {
 	B := effB(b)
 	m := map[int]bool{}
 	// boundaries relative to the payload capacity B and to the real buffer length B+14 (header
@@ -242,6 +257,7 @@ type WConfig struct {
 	Pool      bool
 	ForcePool bool
 	Lean      bool // skip content dimensions (type, pattern, level) - used by the fault checks
+	SizeIdx   int  // 1-based index into S(B) when the size is fixed by the scenario (0: picked inside)
 }
 
 func (c WConfig) String() string {
